@@ -4203,6 +4203,22 @@ class _Normalizer:
                     fi = f0
                     if f0.kind == 'classmethod':
                         recv = fn.value
+                elif f0 is not None and f0.parent is None and f0.cls is None and self.repo.is_helper(f0) and f0.kind == 'function':
+                    # any other module-level helper of another module: a copy of it whose free names are written the way
+                    # this module would write them (``negotiation.STEP``, a constant's value, an import taken over)
+                    fi = self._ported(f0, fn.value)
+        if fi is None and isinstance(fn, ast.Name) and fn.id in self.m.imports and fn.id not in self.m.functions:
+            try:
+                r = self.repo.resolve_name(fn.id, self.m)
+            except Exception:
+                r = None
+            if isinstance(r, FuncRef) and r.module in self.repo.modules and r.module != self.m.name:
+                try:
+                    f0 = self.repo.func(r.module, r.qualname)
+                except Exception:
+                    f0 = None
+                if f0 is not None and f0.parent is None and f0.cls is None and self.repo.is_helper(f0) and f0.kind == 'function':
+                    fi = self._ported(f0, None)
         if fi is None and isinstance(fn, ast.Name):
             # a function defined inside the function being normalised (a closure over its locals), introduced after the
             # inventory was frozen: its body can stand where it is called as long as nothing rebinds what it closes over
@@ -4269,6 +4285,78 @@ class _Normalizer:
         if key not in cache:
             cache[key] = FuncInfo(self.m, None, name, d, 'function', None)
         return cache[key]
+
+    def _ported(self, f0, modexpr):
+        """the module-level helper ``f0`` of another module as this module would have to write it, or None: parameters and
+        locals stay; a free name that means the same in both modules stays; a constant of the other module becomes its
+        value; its functions, classes and tables are reached through the module (``modexpr``, or a name this module already
+        has for it); an import of the other module that this module lacks is taken over into this module's model"""
+        import builtins
+        from .srcmodel import FuncInfo, ModRef
+        cache = self.__dict__.setdefault('_ported_cache', {})
+        key = (f0.key, ast.unparse(modexpr) if modexpr is not None else None)
+        if key in cache:
+            return cache[key]
+        cache[key] = None
+        other = f0.module
+        if any(isinstance(x, (ast.FunctionDef, ast.AsyncFunctionDef, ast.ClassDef, ast.Global, ast.Nonlocal)) and x is not f0.node
+               for x in ast.walk(f0.node)) or f0.node.decorator_list:
+            return None
+        if modexpr is None:
+            for k_, v_ in self.m.imports.items():
+                if isinstance(v_, ModRef) and v_.name == other.name:
+                    modexpr = ast.Name(id=k_, ctx=ast.Load())
+                    break
+        node = copy.deepcopy(f0.node)
+        bound = _bound_names(node)
+        take_over = {}
+        me = self
+        fail = [False]
+
+        def known(m_, n_):
+            return n_ in m_.assigns or n_ in m_.imports or n_ in m_.functions or n_ in m_.classes
+
+        class P(ast.NodeTransformer):
+            def visit_Name(self_, x):
+                if x.id in bound or not isinstance(x.ctx, ast.Load):
+                    return x
+                here, there = known(me.m, x.id), known(other, x.id)
+                if not there:
+                    if here or not hasattr(builtins, x.id):
+                        fail[0] = True
+                    return x
+                if here:
+                    try:
+                        if me.repo.resolve_name(x.id, me.m) == me.repo.resolve_name(x.id, other):
+                            return x
+                    except Exception:
+                        pass
+                if x.id in other.assigns:
+                    vals = other.assigns[x.id]
+                    if len(vals) == 1 and isinstance(vals[0], ast.Constant):
+                        return ast.copy_location(ast.Constant(value=vals[0].value), x)
+                if x.id in other.assigns or x.id in other.functions or x.id in other.classes:
+                    if modexpr is None:
+                        fail[0] = True
+                        return x
+                    return ast.copy_location(ast.Attribute(value=copy.deepcopy(modexpr), attr=x.id, ctx=ast.Load()), x)
+                # an import of the other module
+                if here and x.id not in take_over:
+                    fail[0] = True
+                    return x
+                take_over[x.id] = other.imports[x.id]
+                return x
+
+        node = P().visit(node)
+        if fail[0]:
+            return None
+        for k_, v_ in take_over.items():
+            self.m.imports.setdefault(k_, v_)
+        node.name = 'ported_%s_%s' % (other.name, f0.name)
+        ast.fix_missing_locations(node)
+        out = FuncInfo(module=self.m, cls=None, name=node.name, node=node, kind='function')
+        cache[key] = out
+        return out
 
     def _portable_body(self, fi) -> bool:
         """does every free name of the function's body mean in this module what it means where the function lives?"""
